@@ -414,3 +414,93 @@ func c19BigSub() *engine.Sub {
 		},
 	}
 }
+
+// ---- a random source that delivers less than it is asked for ----
+
+type c19ShortRandCase struct {
+	Chunk int  `json:"chunk"` // at most this many bytes per Read
+	Len   int  `json:"len"`
+	AsStr bool `json:"as_string"`
+}
+
+func (c *c19ShortRandCase) Weight() int { return c.Chunk }
+
+// shortRandReader wraps the counter stream and hands out at most chunk bytes per call (a legal io.Reader).
+type shortRandReader struct {
+	inner *counterReader
+	chunk int
+}
+
+func (r *shortRandReader) Read(p []byte) (int, error) {
+	if len(p) > r.chunk {
+		p = p[:r.chunk]
+	}
+	return r.inner.Read(p)
+}
+
+func c19ShortRandSub() *engine.Sub {
+	return &engine.Sub{
+		Name:   "a-random-source-that-delivers-in-pieces",
+		Serial: true,
+		Rule:   "crypto/rand.Reader replaced by a deterministic stream that hands out at most 1, 2, 7, 23 or 24 bytes per Read (a legal io.Reader: fewer bytes than asked, no error): 300 encryptions of the same value under one key - every stored value starts with 24 bytes that are exactly the next 24 bytes of the stream (no byte of the nonce is left at zero because a Read came back short), all 300 differ, and each decrypts to the value; non-trivial = chunks below 24",
+		Bound: func(string) string {
+			return "5 chunk sizes x plaintext lengths {0, 5, 64} x {string, bytes} x 300 encryptions"
+		},
+		Gen: func(tier string, emit func(any) bool) {
+			for _, ch := range []int{1, 2, 7, 23, 24} {
+				for _, l := range []int{0, 5, 64} {
+					for _, s := range []bool{false, true} {
+						if !emit(&c19ShortRandCase{ch, l, s}) {
+							return
+						}
+					}
+				}
+			}
+		},
+		NewCase: func() any { return &c19ShortRandCase{} },
+		Run: func(ctx *engine.Ctx, c any) {
+			cs := c.(*c19ShortRandCase)
+			pt := c19Plain(cs.Len, "counter")
+			ctx.States(1)
+			if cs.Chunk < 24 {
+				ctx.Nontrivial(1)
+			}
+			old := rand.Reader
+			cr := &counterReader{next: uint64(cs.Chunk)*1000 + uint64(cs.Len)}
+			rand.Reader = &shortRandReader{cr, cs.Chunk}
+			defer func() { rand.Reader = old }()
+			seen := map[string]int{}
+			for i := 0; i < 300; i++ {
+				before := len(cr.consumed())
+				m := meta.NewMeta()
+				if err := c19Add(m, "k", pt, cs.AsStr, c19Key); err != nil {
+					ctx.Failf(cs, "add-fails/short-random-reads", "AddEncrypted fails with a random source that delivers %d bytes per Read: %v", cs.Chunk, err)
+					return
+				}
+				stored, err := m.GetBytes("k")
+				ctx.Eval(1)
+				ctx.Trans(1)
+				if err != nil || len(stored) < 24 {
+					ctx.Failf(cs, "stored-value-shape", "stored value unreadable or shorter than a nonce: %v", err)
+					return
+				}
+				used := cr.consumed()[before:]
+				if len(used) < 24 || !bytes.Equal(stored[:24], used[:24]) {
+					ctx.Outcome("nonce-not-from-the-source")
+					ctx.Failf(cs, "nonce-partly-unfilled/short-random-reads", "encryption %d with a random source delivering %d bytes per Read: the stored nonce is %x, the source handed out %x (%d bytes consumed): part of the nonce never came from the source", i, cs.Chunk, stored[:24], used[:min(len(used), 24)], len(used))
+					return
+				}
+				if j, dup := seen[string(stored)]; dup {
+					ctx.Failf(cs, "nonce-reused/short-random-reads", "encryptions %d and %d of the same value produce the same stored bytes", j, i)
+					return
+				}
+				seen[string(stored)] = i
+				if got, err := c19Get(m, "k", cs.AsStr, c19Key); err != nil || !bytes.Equal(got, pt) {
+					ctx.Failf(cs, "roundtrip/short-random-reads", "the value does not decrypt: %v", err)
+					return
+				}
+			}
+			ctx.Outcome("ok")
+		},
+	}
+}
